@@ -210,6 +210,49 @@ def reloadRaw? (t : Table) (c : RawCfg) : Option Table :=
 def reloadRaw (t : Table) (c : RawCfg) : Table :=
   if Generated.Backends.reloadIgnoresEmptyIds && c.ids = "" then t else reload t (normalise c)
 
+/-! ### which configuration the table is computed from
+
+`getConfiguredHosts(backendIds, config, commonSecret)` (= `normalise`) is called at startup and by `Reload`; where
+its three arguments come from in each caller is read from the source (`startHostsArgs`, `reloadHostsArgs`).  The
+storage also keeps the common secret it saw when it was started (`s.commonSecret`): a caller that does not take the
+common secret from the file it is loading is modelled as using that older value (startup: as having none). -/
+
+def hostsArgsFromLoadedFile : List String :=
+  ["backendIds, _ := config.GetString(\"backend\", \"backends\")", "param:config *goconf.ConfigFile",
+   "commonSecret, _ := GetStringOptionWithEnv(config, \"backend\", \"secret\")"]
+def hostsCallFromLoadedFile : String := "getConfiguredHosts(backendIds, config, commonSecret)"
+
+def startFromLoadedFile : Bool :=
+  Generated.Backends.startHostsCall == hostsCallFromLoadedFile && Generated.Backends.startHostsArgs == hostsArgsFromLoadedFile
+def reloadFromLoadedFile : Bool :=
+  Generated.Backends.reloadHostsCall == hostsCallFromLoadedFile && Generated.Backends.reloadHostsArgs == hostsArgsFromLoadedFile
+
+/-- The static storage: the table, and the common secret of the configuration the server was started with. -/
+structure StaticSt where
+  table : Table := []
+  cachedCommon : String := ""
+  deriving Repr, DecidableEq
+
+/-- The file as `getConfiguredHosts` reads it when its caller hands it `common` as the common secret. -/
+def withCommon (c : RawCfg) (common : String) : RawCfg := { c with common := common }
+
+/-- `NewBackendStorageStatic` in "backends" mode (`fromLoaded`: the common secret handed to `getConfiguredHosts`
+is the one of `c`). -/
+def startStaticWith (fromLoaded : Bool) (c : RawCfg) : StaticSt :=
+  { table := fresh (normalise (if fromLoaded then c else withCommon c "")), cachedCommon := c.common }
+
+/-- `backendStorageStatic.Reload` on a file, `none` = panicked. -/
+def reloadStaticWith? (fromLoaded : Bool) (s : StaticSt) (c : RawCfg) : Option StaticSt :=
+  (reloadRaw? s.table (if fromLoaded then c else withCommon c s.cachedCommon)).map (fun t => { s with table := t })
+
+def reloadStaticWith (fromLoaded : Bool) (s : StaticSt) (c : RawCfg) : StaticSt :=
+  { s with table := reloadRaw s.table (if fromLoaded then c else withCommon c s.cachedCommon) }
+
+/-- The code as it is: the sources as extracted. -/
+def startStatic (c : RawCfg) : StaticSt := startStaticWith startFromLoadedFile c
+def reloadStatic? (s : StaticSt) (c : RawCfg) : Option StaticSt := reloadStaticWith? reloadFromLoadedFile s c
+def reloadStatic (s : StaticSt) (c : RawCfg) : StaticSt := reloadStaticWith reloadFromLoadedFile s c
+
 /-! ### the pinned tree's `UpsertHost` on Go slices (witness only) -/
 
 namespace Legacy
